@@ -38,7 +38,8 @@ theorem default_roundtrip {α : Type} (address len : Nat) (ar : AccessRight)
     (parse : Bytes → R α) (ser : α → R Bytes) (v : α) (d memory : Bytes)
     (hs : ser v = .ok d) (hd : d.length = len) (hp : parse d = .ok v)
     (hin : address + len ≤ memory.length) :
-    let r : Register α := ⟨address, len, ar, parse, ser, defaultWrite address len ser⟩
+    let r : Register α := ⟨address, len, ar, parse, ser, defaultWrite address len ser,
+      defaultWriteSt address len ser⟩
     let memory' := memory.take address ++ d ++ memory.drop (address + len)
     r.write v memory = .ok memory' ∧ r.read memory' = .ok v ∧ memory'.length = memory.length ∧
     ∀ i, i < address ∨ address + len ≤ i → memory'[i]? = memory[i]? := by
